@@ -50,6 +50,12 @@ structure Site where
   inLoop : Bool
   explicitRels : Nat
   returnsBeforeRel : Nat
+  /-- the condition under which the acquisition is executed: source text (whitespace
+      collapsed) of the conditions of the enclosing `if` statements, outermost first,
+      `(c₁) && (c₂)` when nested, `!(c)` for an `else` branch, `case <tag>: <exprs>` for a
+      switch clause; `""` = unconditional.  Early returns before the acquisition are not
+      part of it. -/
+  cond : String := ""
   file : String
   line : Nat
   deriving Repr, Inhabited
